@@ -98,10 +98,10 @@ fn crash_run(tpl: &Path, db: &Path, k: usize, n: u64, from_commit: bool) -> Resu
         });
         set_point_handler(None);
         // the server is NOT shut down cleanly either way
-        let res = format!("done {} {:?} last={}", hits.load(Ordering::SeqCst), r, last.lock().map(|g| g.clone()).unwrap_or_default());
+        let _res = format!("done {} {:?} last={}", hits.load(Ordering::SeqCst), r, last.lock().map(|g| g.clone()).unwrap_or_default());
         unsafe { libc::_exit(if r.is_ok() { 0 } else { 4 }) };
         #[allow(unreachable_code)]
-        res
+        _res
     })?;
     let _ = out;
     match code {
@@ -113,7 +113,7 @@ fn crash_run(tpl: &Path, db: &Path, k: usize, n: u64, from_commit: bool) -> Resu
 
 pub fn run(args: &[String]) -> ! {
     let mut ctx = Ctx::new("C05", Level::FaultEnumeration, args);
-    let dir = ctx.scratch_dir();
+    let dir = ctx.scratch_dir_fast();
     let tpl = dir.join("template.db");
     if let Err(e) = fork_eval(|| make_template(&tpl).err().unwrap_or_default()).and_then(|s| if s.is_empty() { Ok(()) } else { Err(s) }) {
         kv_engine::ctx::machinery_exit(&format!("C05 template: {e}"));
